@@ -500,6 +500,7 @@ func planC01(prop string, seed uint64, tier string, idx int) *Plan {
 		g.p.Knobs.Store = "dir"
 		g.p.Knobs.FaultRate = g.r.pick(30, 100, 300)
 		g.p.Knobs.FaultKinds = []string{"write"}
+		g.p.Knobs.FaultRecover = idx%8 == 7
 	}
 	nb := g.r.between(2, 5)
 	var blobs []int
@@ -669,6 +670,15 @@ func planC02(prop string, seed uint64, tier string, idx int) *Plan {
 		default:
 			g.add(g.readOp(repo))
 		}
+	}
+	if idx%8 == 3 && k.Store == "dir" {
+		// disk errors in single requests; afterwards the model is brought in line with what the server shows (the interrupted
+		// operation may or may not be in effect) and everything else must read back as acknowledged
+		g.p.Profile = "read-back + disk faults, model re-synchronised"
+		k.FaultRate = g.r.pick(20, 60, 150)
+		k.FaultKinds = [][]string{{"read"}, {"write"}, {"meta"}, {"read", "write", "meta"}}[g.r.intn(4)]
+		k.FaultRecover = true
+		k.GCFreqMs = -1
 	}
 	return g.finish(prop, "manifest-read", "blob-read")
 }
@@ -1133,6 +1143,14 @@ func planC08(prop string, seed uint64, tier string, idx int) *Plan {
 			}
 		}
 		g.add(op)
+	}
+	if idx%5 == 4 && k.Store == "dir" {
+		// write errors (short writes, ENOSPC) inside upload requests; the session is re-synchronised through its status
+		g.p.Profile = "sessions + write faults, sessions re-synchronised"
+		k.FaultRate = g.r.pick(30, 100, 300)
+		k.FaultKinds = []string{"write"}
+		k.FaultRecover = true
+		k.GCFreqMs, k.GCOff = -1, false
 	}
 	return g.finish(prop, "upload-201", "session-over-bound", "timer-fired")
 }
